@@ -19,6 +19,8 @@ func (pass *RenameObject) Process(schemas []*ast.Schema) ([]*ast.Schema, error) 
 		OnObject:      pass.processObject,
 		OnRef:         pass.processRef,
 		OnConstantRef: pass.processConstantRef,
+		OnDisjunction: pass.processDisjunction,
+		OnStruct:      pass.processStruct,
 	}
 
 	newSchemas, err := visitor.VisitSchemas(schemas)
@@ -72,4 +74,50 @@ func (pass *RenameObject) processConstantRef(_ *Visitor, _ *ast.Schema, def ast.
 	}
 
 	return def, nil
+}
+
+// discriminator mappings name objects of the schema they are found in: they follow the rename too
+func (pass *RenameObject) processDisjunction(visitor *Visitor, schema *ast.Schema, def ast.Type) (ast.Type, error) {
+	def.Disjunction.DiscriminatorMapping = pass.renameInMapping(schema.Package, def.Disjunction.DiscriminatorMapping)
+
+	var err error
+	for i, branch := range def.Disjunction.Branches {
+		def.Disjunction.Branches[i], err = visitor.VisitType(schema, branch)
+		if err != nil {
+			return ast.Type{}, err
+		}
+	}
+
+	return def, nil
+}
+
+func (pass *RenameObject) processStruct(visitor *Visitor, schema *ast.Schema, def ast.Type) (ast.Type, error) {
+	var err error
+	for i, field := range def.Struct.Fields {
+		def.Struct.Fields[i], err = visitor.VisitStructField(schema, field)
+		if err != nil {
+			return ast.Type{}, err
+		}
+	}
+
+	// the mapping of a disjunction that was turned into a struct is kept as a hint
+	if disjunction, ok := def.Hints[ast.HintDiscriminatedDisjunctionOfRefs].(ast.DisjunctionType); ok {
+		disjunction.DiscriminatorMapping = pass.renameInMapping(schema.Package, disjunction.DiscriminatorMapping)
+		def.Hints[ast.HintDiscriminatedDisjunctionOfRefs] = disjunction
+	}
+
+	return def, nil
+}
+
+func (pass *RenameObject) renameInMapping(pkg string, mapping map[string]string) map[string]string {
+	newMapping := make(map[string]string, len(mapping))
+	for discriminator, typeName := range mapping {
+		if pass.From.MatchesRef(ast.RefType{ReferredPkg: pkg, ReferredType: typeName}) {
+			typeName = pass.To
+		}
+
+		newMapping[discriminator] = typeName
+	}
+
+	return newMapping
 }
